@@ -957,8 +957,20 @@ func (c *simCluster) project(n *simNode) pNodeState {
 	}
 	for i := r.log.PrevIndex() + 1; i <= r.log.LastIndex(); i++ {
 		e := &entry{}
-		if err := r.storage.getEntry(i, e); err != nil {
-			panic(harnessStuck(fmt.Sprintf("projection: getEntry(%d): %v", i, err)))
+		var perr interface{}
+		func() {
+			// a node that died inside a log operation can leave the in-memory log unreadable: project what is readable
+			defer func() { perr = recover() }()
+			if err := r.storage.getEntry(i, e); err != nil {
+				perr = err
+			}
+		}()
+		if perr != nil {
+			if n.died == "" && !c.crashFired {
+				panic(harnessStuck(fmt.Sprintf("projection: getEntry(%d): %v", i, perr)))
+			}
+			c.note(map[string]interface{}{"kind": "projectionCut", "n": n.id, "at": i, "err": fmt.Sprintf("%v", perr)})
+			break
 		}
 		pe := pEntry{I: e.index, T: e.term, Y: typName(e.typ), C: []pNode{}}
 		switch e.typ {
